@@ -312,6 +312,16 @@ func c13info(r *rand.Rand, k *mon.Case, cidKeyed bool) *type1.FontInfo {
 	} else {
 		fi.FontMatrix = c13matrix(r, matrix.Matrix{0.001, 0, 0, 0.001, 0, 0})
 	}
+	if r.IntN(6) == 0 {
+		// the value that is the default of the *other* kind of font (the
+		// defaults differ: 0.001 for simple fonts, what the reader assumes
+		// as identity for CID-keyed ones)
+		if cidKeyed {
+			fi.FontMatrix = matrix.Matrix{0.001, 0, 0, 0.001, 0, 0}
+		} else {
+			fi.FontMatrix = matrix.Identity
+		}
+	}
 	return fi
 }
 
@@ -1380,6 +1390,33 @@ func runC13(c *mon.Ctx) {
 			sp = c13simple(r, k, n, light)
 		}
 		c13check(k, sp)
+	})
+
+	// section offsets at the operand-size boundaries: the writer re-encodes
+	// the dictionaries until the offsets they contain stop moving (an offset
+	// that grows from 1 to 2 or from 2 to 3 bytes moves everything behind
+	// it); sweeping the length of one string byte by byte moves the offsets
+	// of charset, CharStrings and Private DICT across 107/108, 1131/1132 and
+	// 32767/32768
+	c.Stratum("offset-sweep", c.N(1500, 30000), func(k *mon.Case) {
+		r := k.Rng
+		n := []int{1, 2, 4, 7, 12}[k.Index%5]
+		var sp *c13spec
+		if k.Index/5%4 == 0 {
+			sp = c13cid(r, k, n, true)
+		} else {
+			sp = c13simple(r, k, n, true)
+		}
+		// the notice is the one string whose length is swept
+		base := []int{0, 820, 31800}[k.Index/20%3]
+		if base == 31800 && !k.C.Thorough() && k.Index/60%4 != 0 {
+			base = 820
+		}
+		l := base + (k.Index/60)%420
+		sp.font.FontInfo.Notice = strings.Repeat("n", l)
+		sp.desc += fmt.Sprintf(" notice=%d bytes", l)
+		c13check(k, sp)
+		k.Class(fmt.Sprintf("offset-sweep:base=%d", base))
 	})
 
 	// dictionary reals over the whole float64 range
